@@ -175,6 +175,10 @@ func (set *SortedSet) AddOrUpdate(
 	if strings.EqualFold(inc, "incr") {
 		for _, m := range members {
 			if !set.Contains(m.Value) {
+				// With the XX policy only existing members are updated
+				if strings.EqualFold(policy, "xx") {
+					return count, nil
+				}
 				// If the member is not contained, add it with the increment as its Score
 				set.members[m.Value] = MemberObject{
 					Value:  m.Value,
@@ -184,6 +188,10 @@ func (set *SortedSet) AddOrUpdate(
 				// Always add count because this is the addition of a new element
 				count += 1
 				return count, err
+			}
+			// With the NX policy existing members are left as they are
+			if strings.EqualFold(policy, "nx") {
+				return count, nil
 			}
 			if slices.Contains([]Score{Score(math.Inf(-1)), Score(math.Inf(1))}, set.members[m.Value].Score) {
 				return count, errors.New("cannot increment -inf or +inf")
